@@ -215,6 +215,12 @@ pub fn install_panic_hook() {
             eprintln!("HARNESS PANIC (harness code): {} at {}", msg, loc);
             std::process::exit(2);
         }
+        // line numbers move with every edit: name the one known site by its message
+        let loc = if msg.starts_with("not yet implemented: Failed to await pending payment") {
+            String::from("htlc_manager.rs:todo")
+        } else {
+            loc
+        };
         let short: String = msg.chars().take(60).collect();
         PANICS.with(|p| p.borrow_mut().push(json!({"o":"panic","msg":short,"loc":loc})));
     }));
@@ -372,13 +378,23 @@ impl Driver {
         self.line(sp);
     }
 
-    fn find_call(&self, sel: &Value, sts: &[CallSt]) -> Option<u64> {
+    fn find_call(&self, step: &Value, sts: &[CallSt]) -> Option<u64> {
+        let sel = &step["sel"];
+        let who = step["who"].as_str().unwrap_or("");
         sim::with(|s| {
             if let Some(id) = sel.get("call").and_then(|c| c.as_u64()) {
                 return s.calls.get(&id).filter(|c| sts.contains(&c.st)).map(|c| c.id);
             }
-            let m: Vec<u64> = s.calls.values().filter(|c| sts.contains(&c.st) && sel_matches(sel, &c.abs)).map(|c| c.id).collect();
-            if m.len() == 1 { Some(m[0]) } else { None }
+            let m: Vec<(u32, u64)> = s.calls.values().filter(|c| sts.contains(&c.st) && sel_matches(sel, &c.abs)).map(|c| (c.lc, c.id)).collect();
+            // the same call content can be outstanding twice: the tail of an old
+            // lifecycle and the owner (newest lifecycle) of the same hash
+            match (m.len(), who) {
+                (1, _) => Some(m[0].1),
+                (0, _) => None,
+                (_, "own") => m.iter().max().map(|x| x.1),
+                (_, "tail") => m.iter().min().map(|x| x.1),
+                _ => None,
+            }
         })
     }
 
@@ -397,6 +413,16 @@ impl Driver {
 
     /// Apply one step.  Returns Some(true) on crash (runtime must be rebuilt).
     async fn apply(&mut self, mgr: &Arc<Mgr>, step: &Value) -> bool {
+        let before = self.diverged;
+        let r = self.apply_inner(mgr, step).await;
+        if self.diverged != before && std::env::var("VFH_DEBUG").is_ok() {
+            let calls: Vec<String> = sim::with(|s| s.calls.values().filter(|c| matches!(c.st, CallSt::Issued | CallSt::Running | CallSt::Executed)).map(|c| format!("{:?} {}", c.st, c.abs)).collect());
+            eprintln!("DIVERGED run {} at line {} step {} ; outstanding: {:?}", self.job.run, self.lines.len(), step, calls);
+        }
+        r
+    }
+
+    async fn apply_inner(&mut self, mgr: &Arc<Mgr>, step: &Value) -> bool {
         let a = step["a"].as_str().unwrap_or("");
         if a != "crash" {
             self.commit_answers();
@@ -412,7 +438,7 @@ impl Driver {
             }
             "exec" => {
                 let fault = step["fault"].as_str().unwrap_or("none").to_string();
-                match self.find_call(&step["sel"], &[CallSt::Issued]) {
+                match self.find_call(step, &[CallSt::Issued]) {
                     Some(id) if sim::with(|s| s.exec_enabled(id)) => {
                         let res = sim::with(|s| s.exec(id, &fault));
                         let mut ev = self.call_fields(id, "exec");
@@ -423,7 +449,7 @@ impl Driver {
                     _ => self.diverged += 1,
                 }
             }
-            "deliver" => match self.find_call(&step["sel"], &[CallSt::Executed]) {
+            "deliver" => match self.find_call(step, &[CallSt::Executed]) {
                 Some(id) => {
                     sim::with(|s| s.deliver(id));
                     settle().await;
@@ -432,7 +458,7 @@ impl Driver {
                 }
                 None => self.diverged += 1,
             },
-            "paypart" => match self.find_call(&step["sel"], &[CallSt::Running]) {
+            "paypart" => match self.find_call(step, &[CallSt::Running]) {
                 Some(id) => {
                     let p = sim::with(|s| s.pay_part(id));
                     let mut ev = self.call_fields(id, "paypart");
@@ -454,7 +480,7 @@ impl Driver {
                     self.diverged += 1;
                 }
             }
-            "payreturn" => match self.find_call(&step["sel"], &[CallSt::Running]) {
+            "payreturn" => match self.find_call(step, &[CallSt::Running]) {
                 Some(id) => {
                     let outcome = step["outcome"].as_str().unwrap_or("error").to_string();
                     let hash = sim::with(|s| s.calls[&id].abs["hash"].as_str().unwrap_or("").to_string());
@@ -715,7 +741,11 @@ impl Driver {
             self.apply(mgr, &step).await;
         }
         self.commit_answers();
-        self.line(json!({"ev":"drained"}));
+        let fr: Vec<String> = match (&self.job.rand, self.frozen) {
+            (Some(r), true) if !r.freeze.is_empty() => vec![r.freeze.clone()],
+            _ => vec![],
+        };
+        self.line(json!({"ev":"drained","frozen":fr}));
     }
 
     async fn probe(&mut self, mgr: &Arc<Mgr>, n: u32) {
@@ -788,8 +818,7 @@ impl<'a> serde::Serialize for SpecOut<'a> {
     }
 }
 
-pub fn run_job(job: Job) -> (Vec<String>, u32) {
-    let seed = job.rand.as_ref().map(|r| r.seed).unwrap_or(job.run);
+fn run_job_once(job: Job, seed: u64) -> (Vec<String>, u32) {
     let mut d = Driver::new(job);
     d.start();
     loop {
@@ -806,4 +835,26 @@ pub fn run_job(job: Job) -> (Vec<String>, u32) {
         }
     }
     (std::mem::take(&mut d.lines), d.diverged)
+}
+
+/// Run a job.  A schedule generated from the specification fixes every
+/// environment choice but not the plugin's own `select!` tie (ready and fail
+/// both queued): the runtime's RNG seed is varied until the real code takes
+/// the branch the schedule continues with (at most 12 attempts; the attempt
+/// with the fewest inapplicable steps is kept and judged like any other run).
+pub fn run_job(job: Job) -> (Vec<String>, u32) {
+    let seed = job.rand.as_ref().map(|r| r.seed).unwrap_or(job.run);
+    let tries = if job.sched.is_some() { 12 } else { 1 };
+    let mut best: Option<(Vec<String>, u32)> = None;
+    for k in 0..tries {
+        let r = run_job_once(job.clone(), seed.wrapping_add(k * 7919));
+        let done = r.1 == 0;
+        if best.as_ref().map(|b| r.1 < b.1).unwrap_or(true) {
+            best = Some(r);
+        }
+        if done {
+            break;
+        }
+    }
+    best.unwrap()
 }
